@@ -64,6 +64,8 @@ def gen_cases(tier, seed):
         yield {'family': FORMS[i % len(FORMS)], 'idx': i, 'seed': seed}
     for i in range({'quick': 16, 'thorough': 200}[tier]):
         yield {'family': 'two_positions', 'idx': 10 ** 6 + i, 'seed': seed}
+    for i in range(2):
+        yield {'family': 'optimized', 'idx': 2 * 10 ** 6 + i, 'seed': seed}
 
 
 def is_small(v):
@@ -72,6 +74,74 @@ def is_small(v):
 
 def row_ok(row):
     return row['u1'] is not None and not row['u1'].startswith('q')
+
+
+OPTIMIZED_SCRIPT = r'''
+import json, sys
+import dataflows as d
+from dataflows.base.schema_validator import drop, clear, ignore
+assert sys.flags.optimize >= 1
+rows = [{'id': 0, 'v': '10'}, {'id': 1, 'v': 'x'}, {'id': 2, 'v': None}, {'id': 3, 'v': '-3'}]
+out = {}
+for name, kw in (('drop', {'on_error': drop}), ('clear', {'on_error': clear}), ('ignore', {'on_error': ignore}), ('default', {})):
+    for step_name in ('set_type', 'validate'):
+        try:
+            if step_name == 'set_type':
+                steps = [[dict(r) for r in rows], d.set_type('v', type='integer', **kw)]
+            else:
+                steps = [[dict(r) for r in rows], d.update_schema(-1, fields=[{'name': 'id', 'type': 'integer'}, {'name': 'v', 'type': 'integer'}]),
+                         d.validate(**kw)]
+            res, dp, _ = d.Flow(*steps).results(on_error=None)
+            out[step_name + '/' + name] = {'rows': res[0], 'type': [f['type'] for f in dp.descriptor['resources'][0]['schema']['fields']]}
+        except Exception as e:
+            out[step_name + '/' + name] = 'RAISED ' + type(getattr(e, 'cause', e)).__name__
+print('RESULT ' + json.dumps(out))
+'''
+
+
+def run_optimized(case):
+    """The same policies with assertions disabled (python -O / PYTHONOPTIMIZE)."""
+    import json
+    import os
+    import subprocess
+    counters = {'cells_checked': 0, 'bad_cells_expected': 0, 'handler_calls': 1}
+    viol = []
+    how = ['-O', 'PYTHONOPTIMIZE'][case['idx'] % 2]
+    env = dict(os.environ, PYTHONPATH=boot.REPO)
+    args = [boot.PY, '-W', 'ignore']
+    if how == '-O':
+        args.append('-O')
+        env.pop('PYTHONOPTIMIZE', None)
+    else:
+        env['PYTHONOPTIMIZE'] = '1'
+    try:
+        p = subprocess.run(args + ['-c', OPTIMIZED_SCRIPT], capture_output=True, text=True, timeout=150, env=env, cwd=os.getcwd())
+    except subprocess.TimeoutExpired:
+        return dict(nontrivial=False, violations=[], counters=counters, cov={'type_x_policy': {}, 'bad_position': {}, 'form': {}},
+                    inconclusive='optimized run timed out')
+    line = next((ln for ln in p.stdout.splitlines() if ln.startswith('RESULT ')), None)
+    if line is None:
+        return dict(nontrivial=False, violations=[], counters=counters, cov={'type_x_policy': {}, 'bad_position': {}, 'form': {}},
+                    inconclusive='optimized run gave no result: %s' % p.stderr[-300:])
+    out = json.loads(line[7:])
+    want = {'drop': [{'id': 0, 'v': 10}, {'id': 2, 'v': None}, {'id': 3, 'v': -3}],
+            'clear': [{'id': 0, 'v': 10}, {'id': 1, 'v': None}, {'id': 2, 'v': None}, {'id': 3, 'v': -3}],
+            'ignore': [{'id': 0, 'v': 10}, {'id': 1, 'v': 'x'}, {'id': 2, 'v': None}, {'id': 3, 'v': -3}]}
+    cov = {}
+    for key, got in sorted(out.items()):
+        step_name, policy = key.split('/')
+        counters['cells_checked'] += 4
+        counters['bad_cells_expected'] += 1
+        cov['integer/%s/python_%s' % (policy, how)] = 1
+        if policy == 'default':
+            ok = got == 'RAISED ValidationError'
+        else:
+            ok = isinstance(got, dict) and got['rows'] == want[policy] and got['type'] == ['integer', 'integer']
+        if not ok:
+            viol.append({'kind': 'optimized_mode', 'mech': 'optimized/%s/%s' % (step_name, policy), 'config': {'how': how},
+                         'msg': 'with assertions disabled (%s) %s with policy %s gives %r' % (how, step_name, policy, got)})
+    return dict(nontrivial=True, violations=viol, counters=counters,
+                cov={'type_x_policy': cov, 'bad_position': {}, 'form': {'optimized/' + how: 1}}, sample={'python': how})
 
 
 def run_two_positions(case):
@@ -144,6 +214,8 @@ def run_two_positions(case):
 def run_case(case):
     if case['family'] == 'two_positions':
         return run_two_positions(case)
+    if case['family'] == 'optimized':
+        return run_optimized(case)
     form = case['family']
     rng = boot.rng(case['seed'], 'C14', case['idx'])
     d = lab.df()
@@ -312,7 +384,20 @@ def run_case(case):
     cov['type_x_policy']['%s/%s' % (tlabel, policy)] = 1
 
     # ---------------- oracle -------------------------------------------------------------------
-    sch = tableschema.Schema({'fields': copy.deepcopy(out_fields)})
+    # the schema declares markers of its own for missing values ('n/a'): such a cell is null - it conforms to any type
+    own_missing = form in ('set_type', 'validate_schema') and \
+        boot.rng(case['seed'], 'C14', 'missing', case['idx']).random() < 0.15
+    if own_missing:
+        steps_pre.append(d.update_schema(None, missingValues=['', 'n/a']))
+        for rn in res_names:
+            for i_, row in enumerate(tables[rn]):
+                if i_ % 3 == 1:
+                    for n_ in checked:
+                        if isinstance(row.get(n_), str):
+                            row[n_] = 'n/a' if transform is None else 'T:n/a'
+        cfg['schema_missingValues'] = ['', 'n/a']
+        cov.setdefault('config', {})['schema_declares_own_missing_value_markers'] = 1
+    sch = tableschema.Schema(dict({'fields': copy.deepcopy(out_fields)}, **({'missingValues': ['', 'n/a']} if own_missing else {})))
     fobj = {f.name: f for f in sch.fields}
     exp_by_res, rows_in_by_res = {}, {}
     exp_log, first_bad = [], None
